@@ -144,8 +144,15 @@ func genC32(c *Case, r *kit.Rand) {
 		c.Setup = genSetup(r.Fork("setup"), c.InFunc)
 		c.S = genMutations(r.Fork("S"), r.Range(1, 5), c.InFunc, true)
 		c.T = genMutations(r.Fork("T"), r.Range(1, 5), c.InFunc, true)
-		c.Ctx = kit.Pick(r, []string{"background", "coproc-like-bg-subshell", "procsubst-out", "pipe-both", "bg-cmdsubst", "procsubst-in-bg", "two-bg", "bg-func", "pipe-all"})
+		c.Ctx = kit.Pick(r, []string{"background", "coproc-like-bg-subshell", "procsubst-out", "pipe-both", "bg-cmdsubst", "procsubst-in-bg", "two-bg", "bg-func", "pipe-all",
+			"bg-outliving-subshell", "bg-outliving-cmdsubst", "procsubst-outliving-subshell", "bg-outliving-function-subshell", "bg-in-bg"})
 		c.Faults = genFaults(r.Fork("faults"), []string{"mkfifo-fail", "fifo-open-fail", "exec-fail", "short-read"})
+		// The FIFO error paths are where a child goroutine reports through
+		// runner fields; make sure they are reached often, and place the
+		// fault on either side of the rendezvous.
+		if (c.Ctx == "procsubst-out" || c.Ctx == "procsubst-in-bg") && r.Chance(1, 2) {
+			c.Faults = append(c.Faults, Fault{Kind: "fifo-open-fail", N: r.Intn(2)})
+		}
 	}
 }
 
@@ -172,6 +179,18 @@ func (c *Case) c32RaceProgram() string {
 		l = append(l, "{\n"+S+"\n} &", "{\n"+T+"\n} &", S)
 	case "bg-func":
 		l = append(l, "bgf() {\n"+S+"\n}", "bgf &", T, "bgf")
+	case "bg-outliving-subshell":
+		// the job is started inside a foreground subshell that ends at
+		// once, so it keeps running while the parent goes on
+		l = append(l, "( {\nsleep 1\n"+S+"\n} & )", T, "sleep 2", T)
+	case "bg-outliving-cmdsubst":
+		l = append(l, "x=$( {\nsleep 1\n"+S+"\n} >/dev/null 2>&1 & echo started )", T, "sleep 2", T)
+	case "procsubst-outliving-subshell":
+		l = append(l, "( : <(\nsleep 1\n"+S+"\n) )", T, "sleep 2", T)
+	case "bg-outliving-function-subshell":
+		l = append(l, "of() { ( {\nsleep 1\n"+S+"\n} & ); }", "of", T, "sleep 2", T)
+	case "bg-in-bg":
+		l = append(l, "{ {\nsleep 1\n"+S+"\n} & "+"\n"+T+"\n} &", T, "sleep 2", S)
 	}
 	l = append(l, "wait", "echo done")
 	if c.InFunc {
@@ -182,7 +201,7 @@ func (c *Case) c32RaceProgram() string {
 
 func genC32Wait(c *Case, r *kit.Rand) {
 	c.Kind = "wait"
-	k := r.Range(1, 5)
+	k := r.Range(1, 8)
 	codes := make([]int, k)
 	used := map[int]bool{}
 	for i := range codes {
@@ -196,7 +215,13 @@ func genC32Wait(c *Case, r *kit.Rand) {
 	}
 	for i := 0; i < k; i++ {
 		d := kit.Pick(r, []string{"0", "0.5", "1", "2", "3", "1.5"})
-		switch r.Intn(4) {
+		switch r.Intn(6) {
+		case 4:
+			// a job that starts and waits for a job of its own: each shell
+			// numbers only its own children
+			c.Prog = append(c.Prog, fmt.Sprintf("{ (exit %d) & wait $!; sleep %s; exit %d; } &", 121+i, d, codes[i]))
+		case 5:
+			c.Prog = append(c.Prog, fmt.Sprintf("( sleep %s & (exit %d) & wait g2; wait; exit %d ) &", d, 131+i, codes[i]))
 		case 0:
 			c.Prog = append(c.Prog, fmt.Sprintf("(sleep %s; exit %d) &", d, codes[i]))
 		case 1:
@@ -240,6 +265,7 @@ func genC32Wait(c *Case, r *kit.Rand) {
 var c29Pool = []string{
 	"shopt -s expand_aliases", "alias ll='echo ll-alias '", "alias chain='ll '", "alias e2='echo {x,y}'",
 	"ll {a,b}{1,2} tail", "chain ll e2 z", "e2 w",
+	"echo $s1{a,b}", "echo \"p q\"{1..3}", "echo {a,\"b c\"}.txt", "echo ${s1}{1,2}", "echo $(echo cs){x,y}", "echo '{q}'{1,2}$s1", "for i in $s1{x,y} \"z\"{1,2}; do echo $i; done", "arr3=($s1{a,b} \"q\"{1,2})", "export ex$s1{a,b}=1 2>/dev/null", "declare v$s1{1,2}=val 2>/dev/null", "ll $s1{m,n}", "cat <<< $s1{h,i}", "echo ~{a,b} {a,b}$((1+1))", "case $s1{a,b} in *) echo c;; esac", "[[ $s1{a,b} == f* ]] || true", "f $s1{p,q} | cat", "{ echo $s1{bg1,bg2}; } &",
 	"declare -a arr=({1..3} $s1)", "declare v{1,2}=val", "export ex{a,b}=1", "local_fn() { local q{1,2}=z; echo $q1; }; local_fn",
 	"for i in {1..3} x{a,b}; do echo $i; done", "arr2=({a,b} c [5]=d)", "arr2+=(e{1,2})", "s1+=x", "ENVARR+=x", "ENVARR+=(y z)", "ENVARR+=([1]=X)", "ENVARR+=([0]=Z w)", "ENVARR+=([-1]=neg)", "ENVSPARSE+=([2]=chg)", "ENVSPARSE+=([5]=chg [9]=far)", "ENVMAP+=([k]=new)", "ENVMAP+=([q]=1)", "ENVARR[1]+=app", "ENVMAP[k]+=app", "unset 'ENVSPARSE[2]'", "ENVARR=(${ENVARR[@]} more)", "read -a ENVARR <<< 'r1 r2'", "mapfile -t ENVARR <<< mapped", "declare -a ENVARR", "local_env() { local ENVARR; ENVARR+=(l); }; local_env", "f_env() { ENVARR[0]=in-func; ENVMAP[k]=in-func; }; f_env", "( ENVARR[0]=sub; ENVMAP[k]=sub )", "{ ENVARR+=([1]=bg); } &", "x=$(ENVARR[1]=cs; echo ${ENVARR[1]})", "ENVARR[0]=pipe | cat", "ENVARR[0]=changed", "ENVSPARSE[3]=new", "ENVSPARSE+=(w)", "ENVMAP[k]=changed", "ENVMAP[n]=1", "unset 'ENVMAP[k]'", "unset 'ENVARR[1]'", "unset ENVARR", "ENVSTR+=more", "unset ENVSTR", "export ENVSTR=re", "ENVRO=try 2>/dev/null", "declare -x ENVARR", "readonly ENVMAP",
 	"cat <<EOF\nhere $s1 $(echo sub)\nEOF", "cat <<-EOF\n\ttabbed $s1\n\tline2\n\tEOF", "cat <<'EOF'\nliteral $s1\nEOF", "cat <<< \"hs $s1\"",
@@ -278,6 +304,9 @@ var c30ProgPool = []string{
 	"declare -f hf f1 2>&1; alias 2>&1", "shopt 2>&1 | head1", "set +o 2>&1", "pwd; dirs", "echo \"params:$#:$*\"", "echo \"IFS=[$IFS] OPTIND=$OPTIND HOME=$HOME PATH=$PATH\"",
 	"cd d1 2>&1; pwd", "x=1; echo $x", "false", "fail 4", "echo after-fail", "s1=p; a=(p q); echo ${a[1]}", "f1() { echo p-f1; }; f1", "ha 2>&1", "hf 2>&1",
 	"read line; echo \"read=[$line] rc=$?\"", "cat", "echo to-stderr >&2", "wait; echo waited=$?", "echo $unset_var_ref", "emit 2 | drain", "x=$(echo sub); echo $x", "cat < /home/f1.txt", "echo out > /home/p.txt; cat /home/p.txt",
+	"wait g1 2>&1; echo wg1=$?", "true & wait g1; echo first-job=$?", "(exit 4) & wait $!; echo last-job=$?", "true & echo last=$!", "wait g2 2>&1; echo wg2=$?",
+	"for i in 1 2; do echo $i; break 2; done", "for j in a b c; do echo $j; n=$j; done", "while true; do break 5; done", "for k in x y; do continue 2; echo unreached; done", "until false; do echo once; break; done", "i=0; while [ $i -lt 3 ]; do i=$((i+1)); echo i=$i; done",
+	"echo rc=$?", "echo rc=$?", "f_ret() { return 3; }; f_ret", "( exit 6 )", "true | false", "! true", "x=$(fail 9)", "getopts ab o -b; echo \"o=$o OPTIND=$OPTIND\"", "shift 2>/dev/null; echo \"params:$#\"", "local_top=1 2>&1", "trap 'echo p-exit' EXIT", "alias pa='echo pa'; shopt -s expand_aliases", "pa 2>&1",
 	"type echo >/dev/null; echo rc=$?", "exit 5", "echo unreachable-maybe", "set -e", "set -u", "trap 'echo p-err' ERR",
 }
 
@@ -287,6 +316,9 @@ func genC30(c *Case, r *kit.Rand) {
 		n := r.Range(3, 10)
 		for i := 0; i < n; i++ {
 			s := kit.Pick(r, c30ProgPool)
+			if strings.Contains(s, "EXIT") {
+				continue // the documented exception: only a whole-file run fires the EXIT trap
+			}
 			c.Prog = append(c.Prog, s)
 		}
 		c.Stdin = kit.Pick(r, []string{"nil", "data:in1\nin2\n", "closed"})
@@ -380,6 +412,27 @@ var c31Pool = []c31Prog{
 	{"source-loop", []string{"source /home/d1/loop.sh"}, "nil"},
 	{"trap-exit-loop", []string{"trap 'echo bye' EXIT", "while :; do :; done"}, "nil"},
 	{"arith-loop", []string{"while ((1)); do ((x++)); done"}, "nil"},
+	{"exit-trap-endless", []string{"trap 'while true; do :; done' EXIT", "echo body"}, "nil"},
+	{"err-trap-endless", []string{"trap 'while true; do :; done' ERR", "false", "echo after"}, "nil"},
+	{"exit-trap-endless-after-loop", []string{"trap 'until false; do :; done' EXIT", "while true; do :; done"}, "nil"},
+	{"exit-trap-sleep-loop", []string{"trap 'while :; do sleep 1; done' EXIT", "exit 3"}, "nil"},
+	{"err-trap-read", []string{"trap 'read z' ERR", "false"}, "silent"},
+	{"exit-trap-wait", []string{"trap 'wait' EXIT", "sleep 1000 &"}, "nil"},
+	{"function-trap-loop", []string{"tf() { while :; do :; done; }", "trap tf EXIT", "true"}, "nil"},
+	{"select-in-pipe", []string{"select o in a b; do echo $o; done | drain"}, "silent"},
+	{"select-after-reply", []string{"select o in a b; do echo got; done"}, "datasilent:1\n"},
+	{"read-n-silent", []string{"read -n 3 x"}, "silent"},
+	{"read-p-silent", []string{"read -p prompt x"}, "silent"},
+	{"read-s-silent", []string{"read -s x"}, "silent"},
+	{"read-d-silent", []string{"read -d : x"}, "silent"},
+	{"read-r-loop-silent", []string{"while read -r -a f; do :; done"}, "silent"},
+	{"mapfile-in-loop", []string{"while :; do mapfile -t ls; done"}, "silent"},
+	{"readarray-silent", []string{"readarray arr"}, "silent"},
+	{"nested-cmdsubst-loop", []string{"x=$(y=$(while :; do :; done))"}, "nil"},
+	{"pipe-all-loop", []string{"while :; do echo e >&2; done |& drain"}, "nil"},
+	{"cmdsubst-file-loop", []string{"while :; do x=$(< /home/f1.txt); done"}, "nil"},
+	{"herestring-loop", []string{"while :; do read v <<< val; done"}, "nil"},
+	{"heredoc-loop", []string{"while :; do cat <<EOF >/dev/null\nbody\nEOF\ndone"}, "nil"},
 	{"brace-group-bg-loops", []string{"{ while :; do :; done; } &", "{ until false; do :; done; } &", "wait g1 g2"}, "nil"},
 	{"procsubst-opened-unread", []string{"sleep 1000 < <(yes)"}, "nil"},
 	{"procsubst-slow-reader", []string{"while read l; do sleep 5; done < <(yes)"}, "nil"},
